@@ -2747,7 +2747,7 @@ def polynomial_expr_from_coeffs(lhs, ctx):
     (lst) -> symbolic math representation of polynomial with coeffs in
              lhs
     """
-    ts = vy_type(lhs)
+    ts = vy_type(lhs, simple=True)
     x = sympy.symbols("x")
     return {
         NUMBER_TYPE: lambda: str(sum(x ** arg for arg in range(0, lhs + 1))),
@@ -3164,7 +3164,7 @@ def roman_numeral(lhs, ctx):
                 result += ints[i]
                 lhs = lhs[len(n) :]
         return result
-    elif vy_type(lhs) is list:
+    elif vy_type(lhs, simple=True) is list:
         return vectorise(roman_numeral, lhs, ctx=ctx)
 
 
